@@ -627,7 +627,14 @@ Alphabet<smooth::SubManifold<E>> sub_alpha(int l0, int l1)
         for (Eigen::Index q = 0; q < t.a.size(); ++q)
           if (t.a(q) != 0) zero = false;
         const E m = zero ? m0 : ref_rplus<E>(m0, full);
-        A.vals.push_back(M(m0, m, fd));
+        // both construction paths: (m0, fixed_dims) for values at their origin, (m0, m, fixed_dims) otherwise; the fixed
+        // dimensions are handed over in descending order on both
+        // (the two-argument form is ambiguous for Eigen-vector manifolds, where it is not usable at all)
+        if constexpr (requires { M(m0, fd); }) {
+          if (zero) A.vals.push_back(M(m0, fd)); else A.vals.push_back(M(m0, m, fd));
+        } else {
+          A.vals.push_back(M(m0, m, fd));
+        }
         A.shape.push_back(mask);
       }
   }
